@@ -193,6 +193,8 @@ def run(ctx):
     ctx.nontrivial += good
     ctx.exhaustive = not ctx.quick
     ctx.canary(True, 'n/a')
+    from .. import system
+    system.run(ctx, 'C13')
     ctx.sample({'cfg': pick[len(pick) // 2]['args'], 'out0': pick[len(pick) // 2]['out0'], 'fmt': pick[len(pick) // 2]['fmt'], 'expect': pick[len(pick) // 2]['expect'], 'observed': res[len(pick) // 2]['sections']})
 
 
